@@ -1,13 +1,16 @@
 #!/bin/bash
-# setup_cmd: full .vo build of the Coq development, hygiene grep, extraction,
+# setup_cmd: full .vo build of the Coq development (make -k: one broken proof file does
+# not stop the others; the per-property checks re-check their own Props/<id>.v and report
+# a broken obligation as a violation of THAT property), hygiene grep, extraction,
 # OCaml driver.  Offline; every step under a shell timeout.
-set -euo pipefail
+# Exit status: 0 iff the models extracted and the driver was built.
+set -uo pipefail
 cd "$(dirname "$0")/.."
 ROOT=$(pwd)
 # one build at a time per checkout
 exec 9>"$ROOT/.build.lock"
 flock 9
-python3 tools/gen_project.py
+python3 tools/gen_project.py || exit 2
 cd coq
 # hygiene: nothing that declares an axiom or switches a check off
 if grep -rnE '\b(Admitted|admit|Axiom|Axioms|Parameter|Parameters|Conjecture|Abort All)\b|Unset Guard|bypass_check|type-in-type|impredicative-set|Admit Obligations|native_compute' \
@@ -15,14 +18,23 @@ if grep -rnE '\b(Admitted|admit|Axiom|Axioms|Parameter|Parameters|Conjecture|Abo
   echo "HYGIENE FAILURE: forbidden construct in the Coq development" >&2
   exit 2
 fi
-python3 "$ROOT/tools/check_sections.py"
-coq_makefile -f _CoqProject -o Makefile >/dev/null
-timeout 3000 make -j"${VERIF_JOBS:-12}" 2>&1 | grep -v '^COQDEP\|^COQC\|^CAMLOPT' | tail -40 || true
-# make's status (pipefail hides it behind grep): re-run quietly for the status
-timeout 3000 make -j"${VERIF_JOBS:-12}" >/dev/null
-mv -f model.ml model.mli "$ROOT/ocaml/" 2>/dev/null || true
+python3 "$ROOT/tools/check_sections.py" || exit 2
+coq_makefile -f _CoqProject -o Makefile >/dev/null || exit 2
+# each coqc under its own time/memory limit (a runaway proof search must not eat the machine)
+export COQC="$ROOT/tools/coqc_limited.sh"
+timeout 3000 make -k -j"${VERIF_JOBS:-12}" COQC="$COQC" 2>&1 | grep -v '^COQDEP\|^COQC\|^CAMLOPT' | tail -40
+if ! timeout 600 make -q COQC="$COQC" >/dev/null 2>&1; then
+  echo "WARNING: some Coq files did not build (see above); the checks of the properties that need them will report it" >&2
+fi
+if [ ! -f Extract/Extract.vo ]; then
+  echo "BUILD FAILURE: models did not extract" >&2
+  exit 2
+fi
+[ -f model.ml ] && mv -f model.ml model.mli "$ROOT/ocaml/"
 cd "$ROOT/ocaml"
 mkdir -p "$ROOT/bin"
-timeout 600 ocamlfind ocamlopt -w -a -package str model.mli model.ml driver.ml -o "$ROOT/bin/driver" 
-rm -f *.cmi *.cmx *.o
+if [ ! -x "$ROOT/bin/driver" ] || [ model.ml -nt "$ROOT/bin/driver" ] || [ driver.ml -nt "$ROOT/bin/driver" ]; then
+  timeout 600 ocamlfind ocamlopt -w -a -package str model.mli model.ml driver.ml -o "$ROOT/bin/driver" || exit 2
+  rm -f *.cmi *.cmx *.o
+fi
 echo "build ok"
